@@ -232,6 +232,15 @@ impl Scenario for C12 {
             acts.push(Act::Emit { var: 0 });
             return (cfg, acts);
         }
+        if fam == "theta" && rng.chance(1, 120) {
+            // spot run with more than 65535 retained entries: the compressed form then needs a
+            // three-byte entry count (nominal size 2^16 or 2^17, exact mode up to 2k entries)
+            cfg.a = *rng.pick(&[16u64, 17]);
+            acts.push(Act::Fill { cols: rng.range(0, 3) as u8, seed: rng.next_u64() });
+            acts.push(Act::Emit { var: 1 });
+            acts.push(Act::Emit { var: 3 });
+            return (cfg, acts);
+        }
         let steps = 2 + rng.usize_below(8);
         for _ in 0..steps {
             let n = match rng.below(5) {
@@ -421,7 +430,7 @@ impl Scenario for C12 {
                     2 => datasketches::common::ResizeFactor::X4,
                     _ => datasketches::common::ResizeFactor::X8,
                 };
-                let mut sk = ThetaSketch::builder().lg_k((cfg.a as u8).clamp(5, 14)).resize_factor(rf).sampling_probability([1.0f32, 1.0, 0.3, 0.01][(cfg.b / 4 % 4) as usize]).seed(cfg.seed).build();
+                let mut sk = ThetaSketch::builder().lg_k((cfg.a as u8).clamp(5, 17)).resize_factor(rf).sampling_probability([1.0f32, 1.0, 0.3, 0.01][(cfg.b / 4 % 4) as usize]).seed(cfg.seed).build();
                 for a in acts {
                     st.ticks += 1;
                     match a {
@@ -434,6 +443,17 @@ impl Scenario for C12 {
                             for &v in vals {
                                 lib_call("ThetaSketch::update", || sk.update(v))?;
                             }
+                        }
+                        Act::Fill { cols, seed } => {
+                            // 66k .. 128k pseudo-random hashes (one call: the panic site is what matters)
+                            let n = 66_000 + (*cols as u64 % 4) * 15_000 + seed % 15_000;
+                            let mut r = Rng::new(*seed);
+                            lib_call("verif_insert_hash x n", || {
+                                for _ in 0..n {
+                                    sk.verif_insert_hash(r.next_u64() & (i64::MAX as u64));
+                                }
+                            })?;
+                            st.probe("theta_more_than_65535_entries");
                         }
                         Act::Trim => {
                             lib_call("ThetaSketch::trim", || sk.trim())?;
